@@ -157,6 +157,18 @@ def run_property(pid, P, tier, repo, seed):
             r["contract"] = r["function"]
     if canary_total and canary_ok != canary_total:
         errors.append(f"vacuity guard: {canary_total - canary_ok} of {canary_total} 'ensures False' canaries were provable (contradictory precondition or engine unsoundness)")
+    if os.environ.get("PYVC_WRITE_HINTS"):
+        hp = os.path.join(os.path.dirname(os.path.abspath(__file__)), "attempt_hints.json")
+        try:
+            hints = json.load(open(hp))
+        except Exception:
+            hints = {}
+        for r in obligations:
+            if r.get("attempt"):
+                hints[r["name"]] = r["attempt"]
+            elif r["name"] in hints and r["status"] == "discharged" and r["backend"] == "z3":
+                del hints[r["name"]]
+        json.dump(hints, open(hp, "w"), indent=0, sort_keys=True)
     disc = sum(1 for r in obligations if r["status"] == "discharged")
     slow = sorted(obligations, key=lambda r: -r["seconds"])[:5]
     fun_infos = []
